@@ -177,7 +177,7 @@ type c47W struct {
 	rng *rand.Rand
 	b   strings.Builder
 	// what the spelling actually used (for the evidence counters)
-	usedCDATA, usedCharRef, usedEntity, shadowedD, redeclDefault, usedAposQuote bool
+	usedCDATA, usedCharRef, usedEntity, shadowedD, redeclDefault, usedAposQuote, attrCDEnd bool
 }
 
 var c47Prefixes = []string{"D", "D", "d", "a", "b", "ns0", "x", "_", "p1", "ü", "DAV", "lp1", "R"}
@@ -307,6 +307,13 @@ func (w *c47W) attrValue(s string) {
 		w.usedAposQuote = true
 	}
 	w.b.WriteByte(q)
+	from := w.b.Len()
+	defer func() {
+		// "]]>" is only forbidden in character data; AttValue allows it (XML 1.0 production 10)
+		if strings.Contains(w.b.String()[from:], "]]>") {
+			w.attrCDEnd = true
+		}
+	}()
 	for _, r := range s {
 		switch {
 		case r == '<':
@@ -956,21 +963,26 @@ func c47GenValue(rng *rand.Rand, self xml.Name, thorough bool, feat map[string]b
 	}
 }
 
-// c47Adopt returns a copy of kids in which every element in no namespace is moved into ns
-// (what happens to unprefixed elements spliced under an xmlns="ns" declaration).
-func c47Adopt(kids []*c47Node, ns string) []*c47Node {
-	out := make([]*c47Node, len(kids))
-	for i, k := range kids {
-		cp := *k
-		if cp.Kind == c47Elem {
-			if cp.Space == "" {
-				cp.Space = ns
-			}
-			cp.Kids = c47Adopt(k.Kids, ns)
-		}
-		out[i] = &cp
+// c47EqualButAdopted reports whether got equals want except that some elements which were in
+// no namespace are now in ns (what happens to unprefixed elements spliced under an
+// xmlns="ns" declaration).
+func c47EqualButAdopted(want, got []*c47Node, ns string) bool {
+	w, g := c47Flat(want), c47Flat(got)
+	if len(w) != len(g) {
+		return false
 	}
-	return out
+	adopted := false
+	for i := range w {
+		if w[i] == g[i] {
+			continue
+		}
+		if strings.HasPrefix(w[i], "E{}") && g[i] == "E{"+ns+"}"+w[i][3:] {
+			adopted = true
+			continue
+		}
+		return false
+	}
+	return adopted
 }
 
 func c47HasSameName(kids []*c47Node, self xml.Name) bool {
@@ -1234,7 +1246,8 @@ func (x *c47Run) applyPatch(p string, pt *c47Patch) (nontrivial bool, sig uint64
 	sig = hs.Sum64()
 	for k, v := range map[string]bool{"spelled_with_cdata": w.usedCDATA, "spelled_with_char_refs": w.usedCharRef,
 		"spelled_with_entities": w.usedEntity, "spelled_shadowing_D_prefix": w.shadowedD,
-		"spelled_redeclaring_default_ns": w.redeclDefault, "spelled_with_apos_quoted_attr": w.usedAposQuote} {
+		"spelled_redeclaring_default_ns": w.redeclDefault, "spelled_with_apos_quoted_attr": w.usedAposQuote,
+		"spelled_with_cdata_end_marker_in_attribute_value": w.attrCDEnd} {
 		if v {
 			x.ev(k, 1)
 		}
@@ -1288,8 +1301,11 @@ func (x *c47Run) applyPatch(p string, pt *c47Patch) (nontrivial bool, sig uint64
 	}
 	if code != 207 {
 		key := "proppatch-rejected:other"
-		if nestedSame {
+		switch {
+		case nestedSame:
 			key = "proppatch-rejected:value-nests-element-named-like-property"
+		case w.attrCDEnd:
+			key = "proppatch-rejected:cdata-end-marker-in-attribute-value"
 		}
 		x.viol(key, "well-formed PROPPATCH of dead properties on existing resource %s answered %d %q\nrequest:\n%s", p, code, strings.TrimSpace(resp), c47Cut(body, 2500))
 		// The request was refused as a whole: nothing may have changed (verified by the
@@ -1501,7 +1517,7 @@ func (x *c47Run) checkResponse(rr c47RResp, kind string, names []xml.Name, senti
 			if c47HasSameName(st.Kids, n) {
 				cls += ":value-nests-element-named-like-property"
 			}
-			if n.Space != "" && c47Canon(c47Adopt(st.Kids, n.Space)) == gc {
+			if n.Space != "" && c47EqualButAdopted(st.Kids, rp.Kids, n.Space) {
 				// the only difference: elements that were in no namespace came back in
 				// the namespace of the property element
 				cls = "unqualified-element-adopts-property-namespace"
